@@ -65,6 +65,55 @@ func NewChildEnvironment(parent *Environment) *Environment {
 	}
 }
 
+// Snapshot returns one scope holding a copy of every binding visible from e
+// below the root environment, placed above that same root (which holds the
+// module's functions and constants and is only read while requests run). An
+// async block runs on such a snapshot: it sees the values its parent had when
+// the block was started, and neither side can touch the other's scopes while
+// both run.
+func (e *Environment) Snapshot() *Environment {
+	root := e
+	for root.parent != nil {
+		root = root.parent
+	}
+	snap := &Environment{vars: make(map[string]binding), depth: e.depth}
+	var chain []*Environment
+	for s := e; s != nil; s = s.parent {
+		if s == root && root != e {
+			snap.parent = root
+			break
+		}
+		chain = append(chain, s)
+	}
+	for k := len(chain) - 1; k >= 0; k-- {
+		for name, b := range chain[k].vars {
+			snap.vars[name] = binding{value: snapshotValue(b.value), source: b.source}
+		}
+	}
+	return snap
+}
+
+// snapshotValue copies the containers a GlyphLang value is built from, so that
+// an element assignment on one side is not seen (or raced with) by the other.
+func snapshotValue(v interface{}) interface{} {
+	switch val := v.(type) {
+	case []interface{}:
+		out := make([]interface{}, len(val))
+		for i, e := range val {
+			out[i] = snapshotValue(e)
+		}
+		return out
+	case map[string]interface{}:
+		out := make(map[string]interface{}, len(val))
+		for k, e := range val {
+			out[k] = snapshotValue(e)
+		}
+		return out
+	default:
+		return v
+	}
+}
+
 // Define adds a new variable to the current environment as a user-declared
 // binding. For bindings that originate from the runtime (e.g. path or query
 // parameters), use DefineWithSource so diagnostics can report the origin.
